@@ -74,16 +74,128 @@ def inner_period(G, parts):
 
 
 # ----------------------------------------------------------------------------- real code helpers
+def mkfc(G=1.0, nactive=-1, tptype=0, k=0.0, cb=(), soft=0.0, gravity="basic"):
+    """everything a user can configure around the force / the step that must not affect reversibility:
+    N_active, testparticle_type, softening, a velocity-independent additional force a += -k x
+    (installed as a ctypes `additional_forces` callback), read-only callbacks
+    (cb ⊆ {pre, post, probe}: pre_/post_timestep_modifications, additional_forces), gravity routine"""
+    return dict(G=G, nactive=nactive, tptype=tptype, k=k, cb=tuple(cb), soft=soft, gravity=gravity)
+
+
+def asfc(x):
+    return x if isinstance(x, dict) else mkfc(x)
+
+
+def force_tokens(fc):
+    fc = asfc(fc)
+    return [d2h(fc["G"]), d2h(fc["soft"]), str(fc["nactive"]), str(fc["tptype"]), d2h(fc["k"])]
+
+
+def gen_fc(rng, G, parts, full=True, extra=False):
+    """random configuration; mutates the masses of `parts` when test particles are made massless.
+    extra=True also varies what the Lean model does not replicate (compensated summation)."""
+    n = len(parts)
+    fc = mkfc(G)
+    if not full:
+        return fc
+    if n >= 2 and rng.chance(0.4):
+        fc["nactive"] = rng.randint(1, n - 1)
+        fc["tptype"] = rng.randint(0, 1)
+        if rng.chance(0.5):
+            for p in parts[fc["nactive"]:]:
+                p[0] = 0.0
+    elif rng.chance(0.1):
+        fc["nactive"] = n                      # explicit N_active == N
+    if rng.chance(0.2):
+        fc["soft"] = rng.loguniform(1e-4, 1e-2)
+    cb = []
+    if rng.chance(0.25):
+        cb.append("pre")
+    if rng.chance(0.25):
+        cb.append("post")
+    if rng.chance(0.3):
+        cb.append("probe")
+    if rng.chance(0.2):
+        fc["k"] = rng.loguniform(1e-3, 1e-1) * G
+    fc["cb"] = tuple(cb)
+    if extra and rng.chance(0.15):
+        fc["gravity"] = "compensated"
+    return fc
+
+
+def fc_class(fc):
+    fc = asfc(fc)
+    return (fc["nactive"] != -1, fc["tptype"], fc["k"] != 0, fc["cb"], fc["soft"] != 0, fc["gravity"])
+
+
 class Real:
     def __init__(self, rebound):
         self.rb = rebound
 
-    def sim(self, G, parts, integrator):
+    def sim(self, fc, parts, integrator, janus=None):
+        """janus = (order, scale_pos, scale_vel) configures JANUS and lets the probe check, at EVERY force
+        evaluation (every stage), that the position of EVERY particle (also i >= N_active) is exactly
+        to_double(p_int) — the hypothesis of the reversal theorem."""
+        fc = asfc(fc)
         s = self.rb.Simulation()
-        s.G = G
+        s.G = fc["G"]
         for p in parts:
             s.add(m=p[0], x=p[1], y=p[2], z=p[3], vx=p[4], vy=p[5], vz=p[6])
         s.integrator = integrator
+        if fc["nactive"] != -1:
+            s.N_active = fc["nactive"]
+        if fc["tptype"]:
+            s.testparticle_type = fc["tptype"]
+        if fc["soft"]:
+            s.softening = fc["soft"]
+        if fc["gravity"] != "basic":
+            s.gravity = fc["gravity"]
+        if janus is not None:
+            s.ri_janus.order, s.ri_janus.scale_pos, s.ri_janus.scale_vel = janus
+        st = {"af": 0, "pre": 0, "post": 0, "hb": 0, "probe_checked": 0, "probe_bad": 0, "first_bad": None}
+        s._c10 = st
+        k = fc["k"]
+        cb = fc["cb"]
+        if "pre" in cb:
+            def pre(ptr):
+                st["pre"] += 1
+                _ = ptr.contents.t
+            s.pre_timestep_modifications = pre
+        if "post" in cb:
+            def post(ptr):
+                st["post"] += 1
+                _ = ptr.contents.N
+            s.post_timestep_modifications = post
+        if "hb" in cb:
+            def hb(ptr):
+                st["hb"] += 1
+            s.heartbeat = hb
+        if k != 0.0 or "probe" in cb:
+            probe = "probe" in cb and janus is not None
+            sp = janus[1] if janus else None
+
+            def af(ptr):
+                sim = ptr.contents
+                st["af"] += 1
+                ps = sim._particles
+                N = sim.N
+                if probe and sim.ri_janus._N_allocated == N:
+                    pi = sim.ri_janus.p_int
+                    for i in range(N):
+                        q, g = ps[i], pi[i]
+                        st["probe_checked"] += 1
+                        if q.x != float(g.x) * sp or q.y != float(g.y) * sp or q.z != float(g.z) * sp:
+                            st["probe_bad"] += 1
+                            if st["first_bad"] is None:
+                                st["first_bad"] = dict(particle=i, N=N, N_active=sim.N_active, call=st["af"],
+                                                       x=q.x, grid_x_times_scale=float(g.x) * sp)
+                if k != 0.0:
+                    for i in range(N):
+                        q = ps[i]
+                        q.ax += -k * q.x
+                        q.ay += -k * q.y
+                        q.az += -k * q.z
+            s.additional_forces = af
         return s
 
     @staticmethod
@@ -95,9 +207,14 @@ class Real:
         pi = s.ri_janus.p_int
         return [getattr(pi[i], k) for i in range(s.N) for k in COMP]
 
+    @staticmethod
+    def flag_clear(s):
+        """the recalculation flag must be 0 and N_allocated == N at every step boundary of an undisturbed run"""
+        return s.ri_janus.recalculate_integer_coordinates_this_timestep == 0 and s.ri_janus._N_allocated == s.N
 
-def janus_line(order, sp, sv, G, every, segs, parts):
-    t = ["janus", str(order), d2h(sp), d2h(sv), d2h(G), d2h(0.0), str(every), str(len(segs))]
+
+def janus_line(order, sp, sv, fc, every, segs, parts):
+    t = ["janus", str(order), d2h(sp), d2h(sv)] + force_tokens(fc) + [str(every), str(len(segs))]
     for dt, n in segs:
         t += [d2h(dt), str(n)]
     t.append(str(len(parts)))
@@ -106,8 +223,8 @@ def janus_line(order, sp, sv, G, every, segs, parts):
     return " ".join(t)
 
 
-def leapfrog_line(G, every, segs, parts):
-    t = ["leapfrog", d2h(G), d2h(0.0), str(every), str(len(segs))]
+def leapfrog_line(fc, every, segs, parts):
+    t = ["leapfrog"] + force_tokens(fc) + [str(every), str(len(segs))]
     for dt, n in segs:
         t += [d2h(dt), str(n)]
     t.append(str(len(parts)))
@@ -121,14 +238,12 @@ def in_range(parts, sp, sv, margin=2.0 ** 60):
         all(abs(p[4 + k]) / sv < margin for p in parts for k in range(3))
 
 
-def real_janus_records(R, order, sp, sv, G, every, segs, parts):
-    """records as the driver prints them: after to_int (obtained by a dt=0 step, which is what
-    the first segment must be), then every `every` steps / at segment ends."""
-    s = R.sim(G, parts, "janus")
-    s.ri_janus.order = order
-    s.ri_janus.scale_pos = sp
-    s.ri_janus.scale_vel = sv
+def real_janus_records(R, order, sp, sv, fc, every, segs, parts):
+    """records as the driver prints them (after every `every` steps / at segment ends), the simulation,
+    and the number of step boundaries at which the recalculation flag was not clear"""
+    s = R.sim(fc, parts, "janus", janus=(order, sp, sv))
     recs = []
+    flag_bad = 0
     for dt, n in segs:
         s.dt = dt
         k = 0
@@ -139,12 +254,13 @@ def real_janus_records(R, order, sp, sv, G, every, segs, parts):
             else:
                 s.steps(ch)
             k += ch
+            flag_bad += not R.flag_clear(s)
             recs.append(" ".join(["%016x" % (v & MASK) for v in R.ints(s)] + [d2h(v) for v in R.doubles(s)]))
-    return recs, s
+    return recs, s, flag_bad
 
 
-def real_leapfrog_records(R, G, every, segs, parts):
-    s = R.sim(G, parts, "leapfrog")
+def real_leapfrog_records(R, fc, every, segs, parts):
+    s = R.sim(fc, parts, "leapfrog")
     recs = [" ".join(d2h(v) for v in R.doubles(s))]
     for dt, n in segs:
         s.dt = dt
@@ -175,7 +291,8 @@ def run(c):
         nt = len(ex["tables"])
         c.cov["extracted"] = {"tables": nt, "gamma_entries": sum(len(t["gamma_q"]) for t in ex["tables"]),
                               "stages": {str(t["order"]): t["stages"] for t in ex["tables"]},
-                              "gg": ex["gg"]["c_text"], "regenerated": changed}
+                              "gg": ex["gg"]["c_text"], "regenerated": changed,
+                              "assignments_to_recalculation_flag": ["%s: = %s" % a for a in ex["flag"]]}
         bad = [(t["name"], i) for t in ex["tables"] for i in range(len(t["bits"])) if t["bits"][i] != t["rounded_bits"][i]]
         c.count(("tables", nt), n=sum(len(t["bits"]) for t in ex["tables"]))
         if bad:
@@ -194,11 +311,14 @@ def run(c):
         "ctypes layout of reb_integrator_janus / reb_particle_int (checked by C18)",
     ]
     c.assumptions += [
-        "JANUS theorem: the force is a function of the grid positions only (no velocity-dependent or time-dependent additional forces), particles are not modified between steps (recalculate_integer_coordinates_this_timestep stays 0), every double->int64 conversion is in range",
+        "JANUS theorem: the force is a function of the grid positions only (no velocity-dependent or time-dependent additional forces), particles are not modified between steps (recalculate_integer_coordinates_this_timestep stays 0), every double->int64 conversion is in range; both hypotheses are validated on the real code on every run: a probe installed as additional_forces callback checks at every force evaluation (every stage) that the position of every particle, including i >= N_active, is exactly to_double(p_int), and the flag / N_allocated are read after every step; every assignment to the flag in src/ and the Python package is extracted and a theorem states that only part1 sets it non-zero",
         "LEAPFROG/SEI/splitting theorems are exact-arithmetic (any field): the size of the rounding error of the round trip is only measured by the search",
         "WHFast/SABA/EOS are covered by the abstract palindromic-splitting theorem plus the search, not by a model of their Kepler solver (C03/C09 own those models)",
     ]
-    c.cov["rule"] = ("correspondence: random N-body systems (planetary with masses 1e-8..3e-2, e<0.4, frame offsets; clouds of comparable masses), N 2..8, "
+    c.cov["rule"] = ("configuration sweep (tie and search): N_active<N with massive and massless test particles, testparticle_type 0/1, softening, read-only "
+                     "pre_/post_timestep_modifications and additional_forces callbacks (ctypes), a velocity-independent additional force a += -k x, for the search also compensated "
+                     "gravity, synchronize/energy/angular_momentum calls between steps and integrate() with a heartbeat; "
+                     "correspondence: random N-body systems (planetary with masses 1e-8..3e-2, e<0.4, frame offsets; clouds of comparable masses), N 2..8, "
                      "all 5 JANUS orders, scale_pos/scale_vel from {1e-16..1e-7, 2^-40} independently, dt>0 and dt<0 segments, state compared after every step; "
                      "LEAPFROG and SEI (shearing-sheet particles, OMEGA/OMEGAZ/G varied) likewise after every step; "
                      "search: forward n / backward n round trips on the real code, n up to 1e3 (quick) / 1e4 (thorough): JANUS on planetary systems and clouds, exact bits after "
@@ -217,8 +337,11 @@ def run(c):
 # ----------------------------------------------------------------------------- correspondence
 def corr_janus(c, R, exe):
     rng = c.rng.fork()
-    ncase = 150 if c.thorough else 40
+    ncase = 180 if c.thorough else 80
     lines, expect, meta = [], [], []
+    flag_bad, probe_checked, probe_first = 0, 0, None
+    cbcalls = {"pre": 0, "post": 0, "af": 0}
+    fch = {}
     for case in range(ncase):
         n = rng.randint(2, 8)
         G, parts = gen_planetary(rng, n) if rng.chance(0.7) else gen_cloud(rng, n)
@@ -227,20 +350,39 @@ def corr_janus(c, R, exe):
         if not in_range(parts, sp, sv):
             sp = sv = 1e-16
         P = inner_period(G, parts)
+        fc = gen_fc(rng, G, parts, full=(case % 3 != 0))
         dt = P / rng.choice([15, 40, 100, 300]) * (1 if rng.chance(0.6) else -1)
         long = case % 8 == 7
         nf = rng.randint(200, 1000) if long else rng.randint(3, 25)
+        if fc["k"] != 0 or "probe" in fc["cb"]:
+            nf = min(nf, 60)          # a Python callback at every stage
         every = 50 if long else 1
         segs = [(0.0, 1), (dt, nf), (-dt, nf)]
         if rng.chance(0.3):
             segs.append((dt * 0.37, 3))
         if case % 6 == 5:
             segs = segs[1:]      # no snapping step: to_int happens inside the first real step
-        lines.append(janus_line(order, sp, sv, G, every, segs, parts))
-        recs, _ = real_janus_records(R, order, sp, sv, G, every, segs, parts)
+        lines.append(janus_line(order, sp, sv, fc, every, segs, parts))
+        recs, sim, fb = real_janus_records(R, order, sp, sv, fc, every, segs, parts)
+        flag_bad += fb
+        probe_checked += sim._c10["probe_checked"]
+        if sim._c10["probe_bad"] and probe_first is None:
+            probe_first = dict(sim._c10["first_bad"], order=order, fc=fc, bad=sim._c10["probe_bad"], checked=sim._c10["probe_checked"])
+        for kk in ("pre", "post", "af"):
+            cbcalls[kk] += sim._c10[kk]
         expect.append(recs)
-        meta.append(dict(order=order, N=n, scale_pos=sp, scale_vel=sv, dt=dt, segs=segs, G=G, parts=parts, every=every))
-        c.count(("corr-janus", order, n, sp, sv, dt < 0), n=sum(s[1] for s in segs))
+        meta.append(dict(order=order, N=n, scale_pos=sp, scale_vel=sv, dt=dt, segs=segs, G=G, fc=fc, parts=parts, every=every))
+        c.count(("corr-janus", order, n, sp, sv, dt < 0) + fc_class(fc), n=sum(s[1] for s in segs))
+        fch[str(fc_class(fc)[:3])] = fch.get(str(fc_class(fc)[:3]), 0) + 1
+    c.cov["janus_tie_config_histogram(test_particles,testparticle_type,additional_force)"] = fch
+    c.cov["janus_tie_callback_calls"] = cbcalls
+    c.cov["janus_force_position_probe_checks"] = probe_checked
+    if probe_first is not None:
+        c.corr_break("hypothesis of the JANUS theorem violated on the real code: at a force evaluation the position of particle %d (N=%d, N_active=%d) "
+                     "is not to_double(p_int) (order %d)" % (probe_first["particle"], probe_first["N"], probe_first["N_active"], probe_first["order"]), probe_first)
+    if flag_bad:
+        c.corr_break("ri_janus.recalculate_integer_coordinates_this_timestep / N_allocated not clear at %d step boundaries of undisturbed runs "
+                     "(the model: only part1 sets it, on a particle-count change)" % flag_bad)
     # a few out-of-range cases: the model must say `err`, the C code is not compared (UB)
     nerr = 0
     for k in range(4):
@@ -254,6 +396,7 @@ def corr_janus(c, R, exe):
     got = run_driver(exe, lines)
     ndis = 0
     ncmp = 0
+    nrange = 0
     first = None
     if len(got) != len(lines):
         c.corr_break("drv_c10 returned %d lines for %d janus ops" % (len(got), len(lines)))
@@ -261,6 +404,12 @@ def corr_janus(c, R, exe):
     for g, e, mt in zip(got, expect, meta):
         grecs = [r.strip() for r in g.split("|")]
         grecs = grecs[1:]   # record 0 is the state after to_int (not observable before the first drift in the real code)
+        if grecs and grecs[-1] == "err":
+            # the model met a double->int64 conversion outside the range: undefined behaviour in C from here on
+            grecs = grecs[:-1]
+            e = e[:len(grecs)]
+            mt["truncated_at"] = len(grecs)
+            nrange += 1
         if len(grecs) != len(e):
             ndis += 1
             first = first or dict(mt, why="record count model=%d impl=%d" % (len(grecs), len(e)), model_tail=g[-200:])
@@ -276,6 +425,7 @@ def corr_janus(c, R, exe):
                                  what=("p_int" if j < 6 * mt["N"] else "double") + " " + COMP[j % 6] if j >= 0 else "length")
                 break
     c.cov["janus_records_compared"] = ncmp
+    c.cov["janus_tie_runs_leaving_the_int64_range(compared up to there)"] = nrange
     c.cov["janus_bitwise_disagreements"] = ndis
     c.sample({"janus_line": lines[0][:300], "first_record": expect[0][0][:200]})
     c.cov["janus_tie"] = "bitwise"
@@ -306,10 +456,11 @@ def janus_tolerant(c, exe, expect, meta):
             continue
         n = mt["N"]
         dts = [dt for dt, k in mt["segs"] for _ in range(k)]
+        recs = recs[:mt.get("truncated_at", len(recs))]
         for j in range(len(recs) - 1):
             t = recs[j].split()[:6 * n]
             ms = [d2h(p[0]) for p in mt["parts"]]
-            toks = ["janus1", str(mt["order"]), d2h(mt["scale_pos"]), d2h(mt["scale_vel"]), d2h(mt["G"]), d2h(0.0), d2h(dts[j + 1]), str(n)]
+            toks = ["janus1", str(mt["order"]), d2h(mt["scale_pos"]), d2h(mt["scale_vel"])] + force_tokens(mt["fc"]) + [d2h(dts[j + 1]), str(n)]
             for i in range(n):
                 toks += [ms[i]] + t[6 * i:6 * i + 6]
             lines.append(" ".join(toks))
@@ -408,27 +559,28 @@ def float_tie(c, exe, name, lines, expect, meta, relinker):
 
 def corr_leapfrog(c, R, exe):
     rng = c.rng.fork()
-    ncase = 60 if c.thorough else 15
+    ncase = 60 if c.thorough else 20
     lines, expect, meta = [], [], []
     for case in range(ncase):
         n = rng.randint(2, 8)
         G, parts = gen_planetary(rng, n) if rng.chance(0.7) else gen_cloud(rng, n)
+        fc = gen_fc(rng, G, parts, full=(case % 2 == 1))
         dt = inner_period(G, parts) / rng.choice([30, 100, 300]) * (1 if rng.chance(0.6) else -1)
         nf = rng.randint(3, 40)
         segs = [(dt, nf), (-dt, nf)]
-        lines.append(leapfrog_line(G, 1, segs, parts))
-        expect.append(real_leapfrog_records(R, G, 1, segs, parts))
-        meta.append(dict(N=n, dt=dt, G=G, parts=parts, nf=nf, segs=segs))
-        c.count(("corr-leapfrog", n, dt < 0), n=2 * nf)
+        lines.append(leapfrog_line(fc, 1, segs, parts))
+        expect.append(real_leapfrog_records(R, fc, 1, segs, parts))
+        meta.append(dict(N=n, dt=dt, G=G, fc=fc, parts=parts, nf=nf, segs=segs))
+        c.count(("corr-leapfrog", n, dt < 0) + fc_class(fc), n=2 * nf)
 
     def relink(mt, st, dt):
         parts = [[mt["parts"][i][0]] + st[6 * i:6 * i + 6] for i in range(mt["N"])]
-        return leapfrog_line(mt["G"], 1, [(dt, 1)], parts)
+        return leapfrog_line(mt["fc"], 1, [(dt, 1)], parts)
     float_tie(c, exe, "leapfrog", lines, expect, meta, relink)
 
 
-def sei_line(om, omz, G, every, segs, parts):
-    t = ["sei", d2h(om), d2h(omz), d2h(G), d2h(0.0), str(every), str(len(segs))]
+def sei_line(om, omz, fc, every, segs, parts):
+    t = ["sei", d2h(om), d2h(omz)] + force_tokens(fc) + [str(every), str(len(segs))]
     for dt, n in segs:
         t += [d2h(dt), str(n)]
     t.append(str(len(parts)))
@@ -446,15 +598,11 @@ def gen_sheet(rng, n):
     return om, omz, G, parts
 
 
-def sei_sim(R, om, omz, G, parts):
-    s = R.rb.Simulation()
-    s.integrator = "sei"
+def sei_sim(R, om, omz, fc, parts):
+    s = R.sim(fc, parts, "sei")
     s.ri_sei.OMEGA = om
     if omz != om:
         s.ri_sei.OMEGAZ = omz       # otherwise leave the default -1 (= use OMEGA)
-    s.G = G
-    for p in parts:
-        s.add(m=p[0], x=p[1], y=p[2], z=p[3], vx=p[4], vy=p[5], vz=p[6])
     return s
 
 
@@ -465,11 +613,12 @@ def corr_sei(c, R, exe):
     for case in range(ncase):
         n = rng.randint(1, 8)
         om, omz, G, parts = gen_sheet(rng, n)
+        fc = gen_fc(rng, G, parts, full=(case % 2 == 1))
         dt = (2 * math.pi / om) / rng.choice([20, 50, 200]) * (1 if rng.chance(0.6) else -1)
         nf = rng.randint(3, 40)
         segs = [(dt, nf), (-dt, nf)]
-        lines.append(sei_line(om, omz, G, 1, segs, parts))
-        s = sei_sim(R, om, omz, G, parts)
+        lines.append(sei_line(om, omz, fc, 1, segs, parts))
+        s = sei_sim(R, om, omz, fc, parts)
         recs = [" ".join(d2h(v) for v in R.doubles(s))]
         for sdt, k in segs:
             s.dt = sdt
@@ -477,12 +626,12 @@ def corr_sei(c, R, exe):
                 s.step()
                 recs.append(" ".join(d2h(v) for v in R.doubles(s)))
         expect.append(recs)
-        meta.append(dict(N=n, dt=dt, G=G, parts=parts, OMEGA=om, OMEGAZ=omz, segs=segs))
-        c.count(("corr-sei", n, om, omz != om, dt < 0), n=2 * nf)
+        meta.append(dict(N=n, dt=dt, G=G, fc=fc, parts=parts, OMEGA=om, OMEGAZ=omz, segs=segs))
+        c.count(("corr-sei", n, om, omz != om, dt < 0) + fc_class(fc), n=2 * nf)
 
     def relink(mt, st, dt):
         parts = [[mt["parts"][i][0]] + st[6 * i:6 * i + 6] for i in range(mt["N"])]
-        return sei_line(mt["OMEGA"], mt["OMEGAZ"], mt["G"], 1, [(dt, 1)], parts)
+        return sei_line(mt["OMEGA"], mt["OMEGAZ"], mt["fc"], 1, [(dt, 1)], parts)
     float_tie(c, exe, "sei", lines, expect, meta, relink)
 
 
@@ -533,15 +682,69 @@ def corr_laws(c, exe):
 
 
 # ----------------------------------------------------------------------------- search
+def janus_roundtrip(R, order, sp, sv, fc, parts, dt, nst, mode="steps", again=False):
+    """snap to the grid (one dt=0 step), nst steps with dt, `sim.dt = -sim.dt`, nst steps.
+    mode: steps | interleave (harmless calls between chunks: synchronize, energy, angular momentum) |
+    integrate (reb_simulation_integrate without exact finish time, with a heartbeat installed).
+    Returns dict(i0,d0,i1,i2,d2,i3?,flag_bad,sim)."""
+    if mode == "integrate":
+        fc = dict(fc, cb=tuple(fc["cb"]) + ("hb",))
+    s = R.sim(fc, parts, "janus", janus=(order, sp, sv))
+    s.dt = 0.0
+    s.step()                                   # snap the initial conditions to the grid
+    out = dict(sim=s, flag_bad=0)
+    out["flag_bad"] += not R.flag_clear(s)
+    out["i0"], out["d0"] = R.ints(s), [d2h(v) for v in R.doubles(s)]
+
+    def leg(n):
+        if mode == "interleave":
+            k = 0
+            while k < n:
+                ch = min(n - k, max(1, n // 3))
+                s.steps(ch)
+                k += ch
+                s.synchronize()
+                s.energy()
+                s.angular_momentum()
+                out["flag_bad"] += not R.flag_clear(s)
+        elif mode == "integrate":
+            before = s.steps_done
+            s.integrate(s.t + (n - 0.5) * s.dt, exact_finish_time=0)
+            if s.steps_done - before != n:
+                out["steps_mismatch"] = (s.steps_done - before, n)
+        else:
+            s.steps(n)
+        out["flag_bad"] += not R.flag_clear(s)
+    s.dt = dt
+    leg(nst)
+    out["i1"] = R.ints(s)
+    if max(abs(v) for v in out["i1"]) >= 2 ** 62:
+        out["near_range"] = True
+        return out
+    s.dt = -s.dt
+    leg(nst)
+    out["i2"], out["d2"] = R.ints(s), [d2h(v) for v in R.doubles(s)]
+    if again:
+        s.dt = -s.dt
+        leg(nst)
+        out["i3"] = R.ints(s)
+    return out
+
+
 def search_janus(c, R):
     """the property itself on the real code: snap to the grid (one dt=0 step), n steps with dt, flip the
-    sign of dt the way users do, n steps, compare bits of p_int and of every particle double."""
+    sign of dt the way users do, n steps, compare bits of p_int and of every particle double — over every
+    configuration dimension that must not matter: N_active < N (massive and massless test particles, both
+    testparticle_type), softening, read-only pre/post/additional_forces callbacks, a velocity-independent
+    additional force, compensated gravity, harmless calls between steps, integrate() with a heartbeat."""
     rng = c.rng.fork()
-    ncase = 1200 if c.thorough else 260
+    ncase = 1200 if c.thorough else 500
     nmax = 10000 if c.thorough else 1000
-    hist = {}
+    hist, cfgh = {}, {}
     moved_all = 0
     nviol = 0
+    flag_bad = 0
+    probe_checked, probe_first = 0, None
     for case in range(ncase):
         n = rng.randint(2, 8)
         kind = rng.randint(0, 2)
@@ -551,58 +754,71 @@ def search_janus(c, R):
         if not in_range(parts, sp, sv, 2.0 ** 56):
             sp = sv = 1e-16
         P = inner_period(G, parts)
+        fc = gen_fc(rng, G, parts, full=(case % 2 == 1), extra=True)
+        mode = "steps"
+        if case % 2 == 1:
+            mode = rng.choice(["steps", "steps", "steps", "interleave", "integrate"])
         dt = P / rng.choice([8, 20, 50, 150, 400]) * (1 if rng.chance(0.7) else -1)
         r = rng.uniform()
         nst = rng.randint(1, 10) if r < 0.3 else (rng.randint(10, 200) if r < 0.8 else rng.randint(200, nmax))
         if kind == 2:
             nst = min(nst, 300)       # clouds can eject particles towards the edge of the int64 range
-        s = R.sim(G, parts, "janus")
-        s.ri_janus.order = order
-        s.ri_janus.scale_pos = sp
-        s.ri_janus.scale_vel = sv
-        s.dt = 0.0
-        s.step()                                   # snap the initial conditions to the grid
-        i0, d0 = R.ints(s), [d2h(v) for v in R.doubles(s)]
-        s.dt = dt
-        s.steps(nst)
-        i1 = R.ints(s)
-        if max(abs(v) for v in i1) >= 2 ** 62:
+        if fc["k"] != 0 or "probe" in fc["cb"]:
+            nst = min(nst, 80)        # a Python callback at every stage
+        again = rng.chance(0.2)
+        o = janus_roundtrip(R, order, sp, sv, fc, parts, dt, nst, mode, again)
+        st = o["sim"]._c10
+        probe_checked += st["probe_checked"]
+        if st["probe_bad"] and probe_first is None:
+            probe_first = dict(st["first_bad"], order=order, fc=fc, bad=st["probe_bad"], checked=st["probe_checked"])
+        flag_bad += o["flag_bad"]
+        if o.get("near_range"):
             c.count(None, nontrivial=False)
             hist["skipped_near_int64_range"] = hist.get("skipped_near_int64_range", 0) + 1
             continue
+        if "steps_mismatch" in o:
+            hist["integrate_step_count_mismatch"] = hist.get("integrate_step_count_mismatch", 0) + 1
+            c.count(None, nontrivial=False)
+            continue
+        i0, d0, i1, i2, d2 = o["i0"], o["d0"], o["i1"], o["i2"], o["d2"]
         moved = all(any(i1[6 * p + k] != i0[6 * p + k] for k in range(3)) for p in range(n))
-        twice = None
-        if rng.chance(0.2):
-            # there and back and there again must also agree with the first forward leg
-            twice = i1
-        s.dt = -s.dt
-        s.steps(nst)
-        i2, d2 = R.ints(s), [d2h(v) for v in R.doubles(s)]
-        key = ("janus", order, n, sp, sv, min(3, int(math.log10(nst))), dt > 0)
+        key = ("janus", order, n, sp, sv, min(3, int(math.log10(nst))), dt > 0, mode) + fc_class(fc)
         c.count(key, nontrivial=moved)
         moved_all += moved
         hist[str(order)] = hist.get(str(order), 0) + 1
+        tag = ("test-particles type %d%s" % (fc["tptype"], " massless" if any(p[0] == 0 for p in parts) else "")) if fc["nactive"] not in (-1, n) else "all active"
+        tag += "; callbacks " + ",".join(fc["cb"]) if fc["cb"] else ""
+        tag += "; additional force" if fc["k"] else ""
+        tag += "; " + mode if mode != "steps" else ""
+        tag += "; softening" if fc["soft"] else ""
+        tag += "; " + fc["gravity"] if fc["gravity"] != "basic" else ""
+        cfgh[tag] = cfgh.get(tag, 0) + 1
+        rep_d = dict(integrator="janus", order=order, scale_pos=sp, scale_vel=sv, G=G, fc=fc, mode=mode, dt=dt, nsteps=nst, particles=parts,
+                     procedure="add particles; configure (N_active, testparticle_type, softening, callbacks, additional force, gravity); janus; one step with dt=0 (snap); "
+                               "nsteps with dt; sim.dt=-sim.dt; nsteps; compare p_int and particle bits")
+        suffix = ("-testparticles" if fc["nactive"] not in (-1, n) else "") + ("-callbacks" if (fc["cb"] or fc["k"] or mode == "integrate") else "")
         if i2 != i0 or d2 != d0:
             nviol += 1
             j = next(i for i in range(6 * n) if i2[i] != i0[i] or d2[i] != d0[i])
-            c.violation("janus-roundtrip-order%d" % order,
-                        "JANUS order %d: %d steps forward and %d steps back do not return the initial bits (particle %d %s: %s -> %s, grid %d -> %d)"
-                        % (order, nst, nst, j // 6, COMP[j % 6], d0[j], d2[j], i0[j], i2[j]),
-                        dict(integrator="janus", order=order, scale_pos=sp, scale_vel=sv, G=G, dt=dt, nsteps=nst, particles=parts,
-                             procedure="add particles; janus; one step with dt=0 (snap); nsteps with dt; sim.dt=-sim.dt; nsteps; compare p_int and particle bits"))
-            if nviol >= 3:
+            c.violation("janus-roundtrip-order%d%s" % (order, suffix),
+                        "JANUS order %d (%s): %d steps forward and %d steps back do not return the initial bits (particle %d %s: %s -> %s, grid %d -> %d)"
+                        % (order, tag, nst, nst, j // 6, COMP[j % 6], d0[j], d2[j], i0[j], i2[j]), rep_d)
+            if nviol >= 4:
                 break
-        if twice is not None:
-            s.dt = -s.dt
-            s.steps(nst)
-            if R.ints(s) != twice:
-                c.violation("janus-there-back-there-order%d" % order,
-                            "JANUS order %d: forward/back/forward does not reproduce the first forward leg" % order,
-                            dict(integrator="janus", order=order, scale_pos=sp, scale_vel=sv, G=G, dt=dt, nsteps=nst, particles=parts))
+        if again and o["i3"] != i1:
+            c.violation("janus-there-back-there-order%d%s" % (order, suffix),
+                        "JANUS order %d (%s): forward/back/forward does not reproduce the first forward leg" % (order, tag), rep_d)
         if case < 2:
-            c.sample(dict(kind="janus round trip", order=order, N=n, scale_pos=sp, scale_vel=sv, dt=dt, nsteps=nst, returned_exact=(i2 == i0)))
+            c.sample(dict(kind="janus round trip", order=order, N=n, scale_pos=sp, scale_vel=sv, dt=dt, nsteps=nst, config=tag, returned_exact=(i2 == i0)))
     c.cov["janus_roundtrips_by_order"] = hist
+    c.cov["janus_roundtrips_by_configuration"] = dict(sorted(cfgh.items(), key=lambda kv: -kv[1])[:40])
     c.cov["janus_roundtrips_all_particles_moved"] = moved_all
+    c.cov["janus_search_force_position_probe_checks"] = probe_checked
+    if probe_first is not None:
+        c.corr_break("hypothesis of the JANUS theorem violated on the real code (search runs): at a force evaluation the position of particle %d (N=%d, N_active=%d) "
+                     "is not to_double(p_int) (order %d)" % (probe_first["particle"], probe_first["N"], probe_first["N_active"], probe_first["order"]), probe_first)
+    if flag_bad:
+        c.corr_break("ri_janus.recalculate_integer_coordinates_this_timestep / N_allocated not clear at %d step boundaries of undisturbed search runs" % flag_bad)
 
 
 def relerr(a, b, n):
@@ -644,6 +860,28 @@ def configure(s, variant):
         s.ri_eos.safe_mode = 1
 
 
+def gen_fc_sym(rng, G, parts, variant):
+    """configuration sweep for the rounding-level schemes: massless test particles (N_active < N),
+    read-only pre/post callbacks, a velocity-independent additional force"""
+    fc = mkfc(G)
+    n = len(parts)
+    if n >= 3 and rng.chance(0.4):
+        fc["nactive"] = rng.randint(2, n - 1)
+        for p in parts[fc["nactive"]:]:
+            p[0] = 0.0
+        if variant[0] == "leapfrog":
+            fc["tptype"] = rng.randint(0, 1)
+    cb = []
+    if rng.chance(0.25):
+        cb.append("pre")
+    if rng.chance(0.25):
+        cb.append("post")
+    fc["cb"] = tuple(cb)
+    if rng.chance(0.2):
+        fc["k"] = rng.loguniform(1e-3, 3e-2) * G
+    return fc
+
+
 def roundtrip(R, G, parts, variant, dt, nst):
     s = R.sim(G, parts, "leapfrog")
     configure(s, variant)
@@ -670,6 +908,7 @@ def search_symmetric(c, R):
     nmax = 10000 if c.thorough else 1000
     worst = {}
     worst_fam = {}
+    cfgh = {}
     disc = 0
     for rep in range(reps):
         for variant in variants:
@@ -679,6 +918,11 @@ def search_symmetric(c, R):
             P = inner_period(G, parts)
             dt = P / rng.choice([20, 40, 100]) * (1 if rng.chance(0.7) else -1)
             nst = rng.randint(50, 300) if moderate else rng.choice([50, 200, 500, nmax, rng.randint(20, nmax)])
+            G0 = G
+            G = gen_fc_sym(rng, G0, parts, variant) if rng.chance(0.5) else mkfc(G0)      # from here on G is the whole force configuration
+            if G["k"] != 0:
+                nst = min(nst, 150)
+            cfgh[str(fc_class(G)[:4])] = cfgh.get(str(fc_class(G)[:4]), 0) + 1
             d0, d1, d2 = roundtrip(R, G, parts, variant, dt, nst)
             e = relerr(d0, d2, n)
             travelled = relerr(d0, d1, n)
@@ -686,8 +930,8 @@ def search_symmetric(c, R):
             worst[name] = max(worst.get(name, 0.0), e)
             fam = "moderate" if moderate else "calm"
             worst_fam[fam] = max(worst_fam.get(fam, 0.0), e)
-            c.count((name, n, min(3, int(math.log10(nst)))), nontrivial=travelled > 1e-3)
-            rep_d = dict(integrator=variant[0], variant=list(variant), G=G, dt=dt, nsteps=nst, particles=parts, error=e,
+            c.count((name, n, min(3, int(math.log10(nst)))) + fc_class(G), nontrivial=travelled > 1e-3)
+            rep_d = dict(integrator=variant[0], variant=list(variant), G=G0, fc=G, dt=dt, nsteps=nst, particles=parts, error=e,
                          procedure="add particles; configure; (move_to_com); nsteps; synchronize; sim.dt=-sim.dt; nsteps; synchronize; relative max-norm difference to the start")
             TOL = tol_for(nst)
             if not e <= TOL:
@@ -714,6 +958,7 @@ def search_symmetric(c, R):
     c.cov["worst_roundtrip_error_by_scheme"] = {k: float("%.3g" % v) for k, v in sorted(worst.items())}
     c.cov["worst_roundtrip_error_by_family"] = {k: float("%.3g" % v) for k, v in sorted(worst_fam.items())}
     c.cov["dt_halving_discriminator_runs"] = disc
+    c.cov["symmetric_roundtrips_by_configuration(test_particles,testparticle_type,additional_force,callbacks)"] = cfgh
 
 
 def search_sei(c, R, rng, worst):
@@ -722,9 +967,12 @@ def search_sei(c, R, rng, worst):
     for rep in range(reps):
         n = rng.randint(2, 8)
         om, omz, G, parts = gen_sheet(rng, n)
-        s = sei_sim(R, om, omz, G, parts)
+        fc = gen_fc_sym(rng, G, parts, ("leapfrog",)) if rng.chance(0.5) else mkfc(G)
+        s = sei_sim(R, om, omz, fc, parts)
         dt = (2 * math.pi / om) / rng.choice([20, 50, 200]) * (1 if rng.chance(0.7) else -1)
         nst = rng.choice([50, 200, nmax])
+        if fc["k"] != 0:
+            nst = min(nst, 200)
         d0 = R.doubles(s)
         s.dt = dt
         s.steps(nst)
@@ -737,7 +985,7 @@ def search_sei(c, R, rng, worst):
         TOL = tol_for(nst)
         if not e <= TOL:
             c.violation("sei-roundtrip", "SEI: %d steps forward and back return to the start only to %.2e (bound %.0e)" % (nst, e, TOL),
-                        dict(integrator="sei", OMEGA=om, OMEGAZ=omz, G=G, dt=dt, nsteps=nst, particles=parts, error=e))
+                        dict(integrator="sei", OMEGA=om, OMEGAZ=omz, G=G, fc=fc, dt=dt, nsteps=nst, particles=parts, error=e))
 
 
 def replay(path):
@@ -745,21 +993,14 @@ def replay(path):
     rp = json.load(open(path))["replay"]
     d = build()
     R = Real(use_scratch_rebound(d))
-    parts, G, dt, nst = rp["particles"], rp.get("G", 1.0), rp["dt"], rp["nsteps"]
+    parts, dt, nst = rp["particles"], rp["dt"], rp["nsteps"]
+    G = rp.get("fc") or mkfc(rp.get("G", 1.0))        # the whole force / callback configuration
+    G["cb"] = tuple(G["cb"])
     if rp["integrator"] == "janus":
-        s = R.sim(G, parts, "janus")
-        s.ri_janus.order = rp["order"]
-        s.ri_janus.scale_pos = rp["scale_pos"]
-        s.ri_janus.scale_vel = rp["scale_vel"]
-        s.dt = 0.0
-        s.step()
-        i0, d0 = R.ints(s), [d2h(v) for v in R.doubles(s)]
-        s.dt = dt
-        s.steps(nst)
-        s.dt = -s.dt
-        s.steps(nst)
-        ok = R.ints(s) == i0 and [d2h(v) for v in R.doubles(s)] == d0
-        print("JANUS order %d, %d steps there and back: %s" % (rp["order"], nst, "exact" if ok else "NOT exact"))
+        o = janus_roundtrip(R, rp["order"], rp["scale_pos"], rp["scale_vel"], G, parts, dt, nst, rp.get("mode", "steps"))
+        ok = o["i2"] == o["i0"] and o["d2"] == o["d0"] and not o["flag_bad"] and not o["sim"]._c10["probe_bad"]
+        print("JANUS order %d, %d steps there and back: %s (flag not clear at %d boundaries, %d stale positions at force evaluations)"
+              % (rp["order"], nst, "exact" if (o["i2"] == o["i0"] and o["d2"] == o["d0"]) else "NOT exact", o["flag_bad"], o["sim"]._c10["probe_bad"]))
     elif rp["integrator"] == "sei":
         s = sei_sim(R, rp["OMEGA"], rp["OMEGAZ"], G, parts)
         d0 = R.doubles(s)
